@@ -243,6 +243,9 @@ impl Report {
         // the build profile of espada + harness in this pass ("checked" = release with overflow checks and debug
         // assertions; "release" = the stock release profile users get), and the summary of the other pass if ./check ran two
         cov.insert("build_profile".into(), json!(std::env::var("VERIF_PROFILE").unwrap_or_else(|_| "checked".into())));
+        if lite() {
+            cov.insert("lite_pass".into(), json!("this (second, release-profile) pass runs every family with the largest ones thinned; the first pass ran them in full"));
+        }
         if let Ok(other) = std::env::var("VERIF_OTHER_PASS") {
             cov.insert("other_pass".into(), json!(other));
         }
@@ -417,6 +420,21 @@ impl Drop for HorizonGuard {
                 g.1.remove(&self.0);
             }
         }
+    }
+}
+
+/// the reduced second pass of a slow check (./check sets VERIF_LITE=1 for the release-profile pass of the quick tier
+/// of C09, C10, C11, C12, C15): every family runs, the largest ones thinned
+pub fn lite() -> bool {
+    std::env::var("VERIF_LITE").map(|v| v == "1").unwrap_or(false)
+}
+
+/// keep every k-th element in the lite pass, everything otherwise
+pub fn thin<T>(v: Vec<T>, k: usize) -> Vec<T> {
+    if lite() {
+        v.into_iter().step_by(k.max(1)).collect()
+    } else {
+        v
     }
 }
 
